@@ -161,7 +161,65 @@ def _shapes(ctx):
     rep.floor('R4', 'shape-level overlap tests', k, 2)
 
 
+ALL_SHAPES = ('shape::line_shape::LineShape', 'shape::molecular_shape2::MolecularShape2', 'shape::lj_shape::LJShape2')
+
+
+def shape_transform_obligations(ctx, rule='R5', adts=ALL_SHAPES):
+    """Shape::transform(&self, t) moves EVERY component by t: items.iter().map(|i| i * t).collect(), nothing dropped."""
+    from ..lineage import adaptor_chain
+    from ..mirutil import Tracer, call_matches, field_path
+    rep, f = ctx.rep, ctx.facts
+    n = 0
+    for adt in adts:
+        b = f.one(self_adt=adt, trait='Shape', name='transform')
+        if not rep.check(b is not None, rule, 'anchor:Shape::transform:%s' % adt, adt, 'found', 'Shape::transform not found', 'anchor-lost'):
+            continue
+        rep.saw(b)
+        n += 1
+        t = Tracer(b)
+        agg = None
+        for bb in b.blocks:
+            for st in bb['stmts']:
+                if st['s'] == 'assign' and st['rv']['r'] == 'aggr' and st['rv'].get('adt', '').replace('packing::', '') == adt:
+                    agg = st['rv']
+        ok = False
+        why = 'no shape literal returned'
+        if agg is not None:
+            items = dict(zip(agg['fields'], agg['ops'])).get('items')
+            from .C13 import _items_source
+            src, chain = adaptor_chain(t, items)
+            names = [c[0] for c in chain]
+            # cut at the first adaptor that is a workspace helper (into_iter on &Shape)
+            ok = names[:2] == ['collect', 'map'] and all(x in ('collect', 'map', 'iter', 'into_iter', 'deref') for x in names)
+            why = 'items are not built by map(..).collect() over all components: %s' % names
+            if ok:
+                mt = [c for c in chain if c[0] == 'map'][0][1]
+                srcinfo = _items_source(f, t, mt['args'][0], 0)
+                ok = not isinstance(srcinfo, str) and srcinfo[0] == 1 and srcinfo[1] == ['items']
+                why = 'the mapped components are not self.items: %s' % (srcinfo,)
+            if ok:
+                co = t.origin(mt['args'][1])
+                cb = f.body(co['rv']['closure']) if co['o'] == 'rvalue' and co['rv'].get('agg') == 'closure' else None
+                ok = False
+                why = 'mapping closure not found'
+                if cb is not None:
+                    tc = Tracer(cb)
+                    calls = list(cb.calls())
+                    if len(calls) == 1 and call_matches(calls[0][1], 'Mul<', '::mul') and calls[0][1]['dest']['l'] == 0:
+                        a0, a1 = tc.origin(calls[0][1]['args'][0]), tc.origin(calls[0][1]['args'][1])
+                        cap = t.origin(co['rv']['ops'][0]) if co['rv']['ops'] else {'o': '?'}
+                        tys = sorted([calls[0][1]['args'][0].get('ty', ''), calls[0][1]['args'][1].get('ty', '')])
+                        item_ok = (a0['o'] == 'arg' and a0['l'] == 2) or (a1['o'] == 'arg' and a1['l'] == 2)
+                        cap_ok = cap['o'] == 'arg' and cap['l'] == 2 and any('Transform2' in x for x in tys)
+                        ok = item_ok and cap_ok
+                        why = 'closure = |i| i * transform' if ok else 'the closure does not multiply its item by the transform argument'
+        rep.check(ok, rule, 'shape-transform-moves-every-component:%s' % adt, where(b), why,
+                  'Shape::transform of %s does not move every component by the given transform: %s' % (adt, why))
+    rep.floor(rule, 'Shape::transform impls', n, len(adts))
+
+
 def _ops(ctx):
+    shape_transform_obligations(ctx, 'R5', ALL_SHAPES[:2])
     rep, f = ctx.rep, ctx.facts
     for fname, fields, pts in (('atom2_ops.rs', ['radius'], ['position']), ('line2_ops.rs', [], ['start', 'end'])):
         bodies = [b for b in f.bodies.values() if b.file.endswith(fname) and b.fn_name == 'mul' and not b.is_closure]
